@@ -225,9 +225,12 @@ Proof.
   pose proof (Suf_rc S st (q_prev st c) (q_next st c) HS (fun x H => q_prev_out S st HS G c x Hc H) (fun x H => q_next_out S st HS G c x Hc H)) as H1.
   pose proof (Ext_remove_consolidate st (q_prev st c) (q_next st c) G) as X1.
   destruct (remove_consolidate st (q_prev st c) (q_next st c)) as [st1 m0]. cbn [fst] in *. pose proof (ext_good _ _ X1) as G1.
-  pose proof (Suf_ac S st1 c (q_last_child st1 p) None H1 Hc (fun x H => q_last_child_out S st1 H1 G1 p x Hp H) (fun x H => ltac:(discriminate))) as H2.
-  pose proof (Ext_add_consolidate st1 c (q_last_child st1 p) None G1) as X2.
-  destruct (add_consolidate st1 c (q_last_child st1 p) None) as [st2 m]. cbn [fst] in *.
+  cbv zeta. set (last := if opt_eqb (q_last_child st1 p) (Some c) then q_prev st1 c else q_last_child st1 p).
+  assert (forall x, last = Some x -> ~ In x (ids S)) as Hlast.
+  { intros x H. unfold last in H. destruct (opt_eqb _ _); [exact (q_prev_out S st1 H1 G1 c x Hc H)|exact (q_last_child_out S st1 H1 G1 p x Hp H)]. }
+  pose proof (Suf_ac S st1 c last None H1 Hc Hlast (fun x H => ltac:(discriminate))) as H2.
+  pose proof (Ext_add_consolidate st1 c last None G1) as X2.
+  destruct (add_consolidate st1 c last None) as [st2 m]. cbn [fst] in *.
   destruct m; cbn [fst]; [exact H2|]. apply Suf_move_kids; auto. apply Good_nodup. apply X2.
 Qed.
 
